@@ -38,13 +38,14 @@ type refType struct {
 }
 
 var (
-	canonType  = map[*types.TypeName]string{} // renamed type → reference name
-	canonField = map[*types.Var]string{}      // renamed field → reference name
-	canonFunc  = map[*types.Func]string{}     // renamed function → reference name
-	typeByRef  = map[string]*types.TypeName{} // pkgpath.RefName → current object
-	funcByRef  = map[string]*types.Func{}     // reference key → current object
-	renameRe   *regexp.Regexp
-	renameMap  = map[string]string{} // "short.NewName" → "short.RefName" for type strings
+	canonType    = map[*types.TypeName]string{} // renamed type → reference name
+	canonField   = map[*types.Var]string{}      // renamed field → reference name
+	canonFunc    = map[*types.Func]string{}     // renamed function → reference name
+	typeByRef    = map[string]*types.TypeName{} // pkgpath.RefName → current object
+	funcByRef    = map[string]*types.Func{}     // reference key → current object
+	methodAsFunc = map[*types.Func]string{}     // function that used to be a method of the named type
+	renameRe     *regexp.Regexp
+	renameMap    = map[string]string{} // "short.NewName" → "short.RefName" for type strings
 )
 
 func resetRenames() {
@@ -53,6 +54,7 @@ func resetRenames() {
 	canonFunc = map[*types.Func]string{}
 	typeByRef = map[string]*types.TypeName{}
 	funcByRef = map[string]*types.Func{}
+	methodAsFunc = map[*types.Func]string{}
 	renameRe = nil
 	renameMap = map[string]string{}
 }
@@ -233,14 +235,61 @@ func detectRenames(pkgs []*packages.Package) []string {
 		for i := 0; i < st.NumFields(); i++ {
 			have[st.Field(i).Name()] = true
 		}
+		refNames := map[string]bool{}
+		for _, f := range rt.Fields {
+			refNames[f[0]] = true
+		}
+		paired := map[*types.Var]bool{}
 		for i, f := range rt.Fields {
 			fv := st.Field(i)
 			if fv.Name() == f[0] || have[f[0]] {
 				continue
 			}
-			if blank(rawTypeString(fv.Type())) == blank(f[1]) {
+			if !refNames[fv.Name()] && blank(rawTypeString(fv.Type())) == blank(f[1]) {
 				canonField[fv] = f[0]
+				paired[fv] = true
 				notes = append(notes, fmt.Sprintf("field %s.%s no longer exists; the field at the same position with the same type, %s, is taken to be its new name", k, f[0], fv.Name()))
+			}
+		}
+		// fields that were also moved: a missing reference field and a new field are paired when
+		// each is the only unpaired one of its type
+		for _, f := range rt.Fields {
+			if have[f[0]] {
+				continue
+			}
+			already := false
+			for _, n := range canonField {
+				_ = n
+			}
+			for fv, n := range canonField {
+				if n == f[0] && fv.Pkg() == tn.Pkg() {
+					for i := 0; i < st.NumFields(); i++ {
+						if st.Field(i) == fv {
+							already = true
+						}
+					}
+				}
+			}
+			if already {
+				continue
+			}
+			sameTypeMissing := 0
+			for _, g := range rt.Fields {
+				if !have[g[0]] && blank(g[1]) == blank(f[1]) {
+					sameTypeMissing++
+				}
+			}
+			var cands []*types.Var
+			for i := 0; i < st.NumFields(); i++ {
+				fv := st.Field(i)
+				if !refNames[fv.Name()] && !paired[fv] && blank(rawTypeString(fv.Type())) == blank(f[1]) {
+					cands = append(cands, fv)
+				}
+			}
+			if sameTypeMissing == 1 && len(cands) == 1 {
+				canonField[cands[0]] = f[0]
+				paired[cands[0]] = true
+				notes = append(notes, fmt.Sprintf("field %s.%s no longer exists; %s is the only new field of the same type and is taken to be its new name", k, f[0], cands[0].Name()))
 			}
 		}
 	}
@@ -293,6 +342,57 @@ func detectRenames(pkgs []*packages.Package) []string {
 				canonFunc[cands[0].obj] = m[len(prefix):]
 				funcByRef[m] = cands[0].obj
 				notes = append(notes, fmt.Sprintf("function %s no longer exists; %s has the same receiver and signature and is taken to be its new name", m, cands[0].key))
+				continue
+			}
+			// a method turned into a plain function taking the receiver first (or the reverse)
+			if len(cands) == 0 {
+				pkgPath := m
+				isMethod := false
+				recvName := ""
+				for _, p := range pkgs {
+					if strings.HasPrefix(m, p.PkgPath+".") {
+						rest := m[len(p.PkgPath)+1:]
+						pkgPath = p.PkgPath
+						if i := strings.Index(rest, "."); i >= 0 {
+							isMethod, recvName = true, rest[:i]
+						}
+					}
+				}
+				refSig := blank(kf[m])
+				var alt []fdecl
+				for _, d := range decls {
+					if _, isRef := kf[d.key]; isRef || usedF[d.obj] || d.obj.Pkg().Path() != pkgPath {
+						continue
+					}
+					sig := d.obj.Type().(*types.Signature)
+					if isMethod && sig.Recv() == nil && sig.Params().Len() >= 1 {
+						// func(recv T, rest...) results  ~  method (T).name(rest...) results
+						first := blank(rawTypeString(sig.Params().At(0).Type()))
+						wantVal := blank(pkgPath + "." + recvName)
+						if first != wantVal && first != "*"+wantVal {
+							continue
+						}
+						var ps []*types.Var
+						for i := 1; i < sig.Params().Len(); i++ {
+							ps = append(ps, types.NewVar(0, nil, "", sig.Params().At(i).Type()))
+						}
+						var rs []*types.Var
+						for i := 0; i < sig.Results().Len(); i++ {
+							rs = append(rs, types.NewVar(0, nil, "", sig.Results().At(i).Type()))
+						}
+						rest := types.NewSignatureType(nil, nil, nil, types.NewTuple(ps...), types.NewTuple(rs...), sig.Variadic())
+						if blank(rawTypeString(rest)) == refSig {
+							alt = append(alt, d)
+						}
+					}
+				}
+				if len(alt) == 1 {
+					usedF[alt[0].obj] = true
+					canonFunc[alt[0].obj] = m[len(prefix):]
+					funcByRef[m] = alt[0].obj
+					methodAsFunc[alt[0].obj] = recvName
+					notes = append(notes, fmt.Sprintf("method %s no longer exists; the function %s takes the receiver as its first parameter and has otherwise the same signature, and is taken to be its new form", m, alt[0].key))
+				}
 			}
 		}
 	}
